@@ -10,6 +10,8 @@ import (
 	"go/constant"
 	"go/token"
 	"go/types"
+	"golang.org/x/tools/go/packages"
+	"golang.org/x/tools/go/ssa/ssautil"
 	"path/filepath"
 	"regexp"
 	"strconv"
@@ -62,6 +64,7 @@ func runC14(r *Report) {
 	r.Explanation = "Every potentially panicking operation in every function of every instantiated package is an obligation. (p1) index/slice expressions on slices, arrays and strings: discharged when the Go compiler's prove pass eliminated the bounds check (site absent from `-gcflags=-d=ssa/check_bce/debug=1` output for the emitted package — the compiler only removes a check it proved cannot fail), otherwise it must match a guard idiom checked here (prefix strip under HasPrefix, cut at Index/len, reverse index loop, splitPath contract). (p2) single-result type assertions, panic calls, integer division by a non-constant, slice-to-array conversions: expected 0. (p3) map stores: the map is made non-nil on every path before the store. (p5) exactly one response: ServeHTTP and authMiddlewareOr are fully recognised; every response writer calls WriteHeader exactly once on every path (min = max = 1 over the CFG). (p6) new<Op>Params returns either (zero, non-nil error) or (params, nil). (p7) dynamic calls: the callee value is a parameter, an API/Client field (user configuration), a guarded field, or a package hook initialised non-nil — never the result of a map/slice lookup."
 	r.Rule("C14/bounds", "every index/slice expression is proven by the compiler's prove pass or matches a checked guard idiom")
 	r.Rule("C14/no-panic-construct", "no single-result type assertion, no panic(), no integer division by a variable, no slice->array conversion, no make / Grow / Repeat / MustCompile with a computed (possibly negative) argument in generated code")
+	r.Rule("C14/witness", "the construct rules flag the positive witnesses in testdata and stay silent on the negative ones (anti-vacuity for zero-count rules)")
 	r.Rule("C14/map-store", "every map store is preceded on all paths by a make of that map")
 	r.Rule("C14/one-response", "ServeHTTP / authMiddlewareOr recognised; every response Write calls WriteHeader exactly once on every path")
 	r.Rule("C14/parse-result", "new<Op>Params returns (zero, err != nil) or (params, nil) on every return")
@@ -76,6 +79,7 @@ func runC14(r *Report) {
 		return
 	}
 	defer s3.Close()
+	c14Witness(r)
 	residue, err := bceResidue(s3)
 	if err != nil {
 		r.Break("%v", err)
@@ -896,4 +900,32 @@ func (c *c14) declOf(fn *ssa.Function) *ast.FuncDecl {
 		return fd
 	}
 	return nil
+}
+
+// c14Witness: the construct rules expect zero findings on a healthy tree; the
+// witness package must be flagged exactly as annotated on every run.
+func c14Witness(r *Report) {
+	p, err := loadWitness("c14")
+	if err != nil {
+		r.Break("load witness c14: %v", err)
+		return
+	}
+	prog, pkgs := ssautil.Packages([]*packages.Package{p}, ssa.InstantiateGenerics)
+	prog.Build()
+	scratch := NewReport("C14")
+	c := &c14{r: scratch, s3: &S3{Fset: p.Fset, Root: witnessDir()}, p: &Program{Name: "w", Pkg: p, SSAPkg: pkgs[0]}, info: p.TypesInfo}
+	c.constructs()
+	for i := range scratch.Obls {
+		// "w:c14.Func:what" -> "w.Func:what"; rule "C14/x" -> "x"
+		k := strings.TrimPrefix(scratch.Obls[i].Key, "w:")
+		name := k
+		if j := strings.Index(name, ":"); j >= 0 {
+			name = name[:j]
+		}
+		if j := strings.LastIndex(name, "."); j >= 0 {
+			name = name[j+1:]
+		}
+		scratch.Obls[i].Key = "w." + name + ":x"
+	}
+	compareWitness(r, "C14", scratch, witnessExpectations(p))
 }
